@@ -450,5 +450,45 @@ func runUncatchableClose(p *core.Prog) *core.Result {
 			}
 		}
 	}
+	// the dual: truncating the iterator stack *without* closing the iterators (dropStacks) is only
+	// right when no more script may run - i.e. from restoreStacks itself (after it closed them) or
+	// under the classification "the pending payload is not a script exception"
+	{
+		dropStacks, err := p.GojaMethod("vm", "dropStacks")
+		if err != nil {
+			return res.Fail(err)
+		}
+		exFromValue, err := p.GojaMethod("vm", "exceptionFromValue")
+		if err != nil {
+			return res.Fail(err)
+		}
+		n := 0
+		for _, f := range p.Funcs {
+			if !p.InModule(f) {
+				continue
+			}
+			for _, c := range core.CallsIn(f, dropStacks) {
+				n++
+				key := fmt.Sprintf("%s:dropStacks#%d", core.FuncName(f), n)
+				if f == restoreStacks {
+					res.OK(key, p.Pos(c.Pos()), "after restoreStacks closed the iterators")
+					continue
+				}
+				ok := false
+				for _, cp := range core.ControllingConds(c.Block()) {
+					if x, nonNil, isNil := core.IsNilCompare(cp.Cond); isNil && cp.Pol != nonNil {
+						if call, isCall := core.Origin(x).(*ssa.Call); isCall && call.Call.StaticCallee() == exFromValue {
+							ok = true
+						}
+					}
+				}
+				if ok {
+					res.OK(key, p.Pos(c.Pos()), "only when exceptionFromValue classified the payload as not a script exception")
+				} else {
+					res.Bad(key, p.Pos(c.Pos()), "the iterators opened by the abandoned code are dropped without calling their return(): on a normal or script-exception path (generator.return() completing, a caught throw) every open iterator must be closed exactly once - dropStacks is reserved for interrupts, stack overflows and Go panics")
+				}
+			}
+		}
+	}
 	return res
 }
